@@ -154,6 +154,7 @@ class T4TSilicon(object):
         self.cid_support = cid_support
         self.chunk = chunk              # max INF per response block (None -> FSD-3)
         self.wtx_plan = wtx_plan        # callable(kind) -> wtxm or 0; kind in 'answer','chain','ack'
+        self.proc_time = 0.0            # seconds the card takes to answer a block of the protocol (must stay below its FWT)
         self.wtx_repeat = 1             # S(WTX) requests in a row before the block goes out (None: for ever)
         self.wtx_left = 0
         self.max_block_seen = 0         # largest block (PCB+INF+CRC) received in protocol state
@@ -207,6 +208,9 @@ class T4TSilicon(object):
             self.state = "selected"
             return {"sensb_res": bytearray(res)}
 
+    def response_time(self, data):
+        return self.proc_time if self._in_protocol else 0.0     # activation commands have their own fixed timing
+
     # ---- block protocol -----------------------------------------------------------------
     def _send(self, block, kind):
         """maybe precede the answer with S(WTX)"""
@@ -226,7 +230,10 @@ class T4TSilicon(object):
         more = bool(self.out_chunks)
         return bytes([(0x12 if more else 0x02) | self.bn]) + chunk, more
 
+    _in_protocol = False
+
     def command(self, data):
+        self._in_protocol = self.state in ("protocol", "wtx")
         self.cmd_log.append(bytes(data))
         data = bytes(data)
         if self.state == "idle" or not data:
